@@ -210,6 +210,16 @@ class RaggedArray:
         txt = readcodetxt(self)
         self._datadir._write_txt(self._readmefilename, txt, overwrite=True)
 
+    def _sync_arrayinfo(self):
+        # The ragged array on disk may have been changed through another
+        # RaggedArray object or by path (e.g. truncate_raggedarray, overwrite)
+        # since this object was created.
+        self._values._sync_arrayinfo()
+        self._indices._sync_arrayinfo()
+        self._arrayinfo.update(len=len(self._indices), size=self._values.size,
+                               atom=self._values.shape[1:],
+                               numtype=self._values._arrayinfo['numtype'])
+
     def _update_arraydescr(self, **kwargs):
         self._arrayinfo.update(kwargs)
         self._datadir._write_jsondict(filename=self._arraydescrfilename,
@@ -346,6 +356,7 @@ class RaggedArray:
         if self._accessmode != 'r+':
             raise OSError(f"Accesmode should be 'r+' "
                           f"(now is '{self._accessmode}')")
+        self._sync_arrayinfo()
         vlenincr = 0
         ilenincr = 0
         try:
@@ -779,6 +790,7 @@ def truncate_raggedarray(ra, index):
     del mmap
     ra._values.check_arraywriteable()
     ra._indices.check_arraywriteable()
+    ra._sync_arrayinfo()
     if 0 <= newlen < len(ra):
         truncate_array(ra._indices, index=newlen)
         if newlen == 0:
